@@ -2,7 +2,9 @@
 evidence files, known findings.  Python 3 standard library only."""
 import fcntl
 import hashlib
+import concurrent.futures as cf
 import json
+import threading
 import os
 import re
 import shutil
@@ -95,6 +97,9 @@ def sha(*chunks):
 STRICT = ['-std=c++17', '-O2', '-fno-fast-math', '-ffp-contract=off', '-w']
 
 
+_COMPILE_SEM = threading.BoundedSemaphore(int(os.environ.get('VERIF_COMPILE_JOBS', '0')) or NCPU)
+
+
 def compile_cxx(name, sources, flags=None, compiler='g++', libs=(), extra_inc=(), timeout=3000,
                 allow_fail=False):
     """Compile one binary from source files.  Each source is its own TU, compiled in parallel; objects are
@@ -122,16 +127,30 @@ def compile_cxx(name, sources, flags=None, compiler='g++', libs=(), extra_inc=()
             if os.path.exists(o):
                 continue
             cmd = [compiler] + flags + incs + ['-c', s, '-o', o + f'.{os.getpid()}.tmp']
-            procs.append((o, cmd, subprocess.Popen(cmd, stdout=subprocess.PIPE, stderr=subprocess.STDOUT)))
+            procs.append((o, cmd))
         errs = []
-        for o, cmd, p in procs:
-            try:
-                txt, _ = p.communicate(timeout=timeout)
-            except subprocess.TimeoutExpired:
-                p.kill()
+
+        def compile_one(oc):
+            # at most NCPU compiler processes per check process, however many harnesses it builds at once (sanitized TUs need ~2 GB each)
+            o, cmd = oc
+            with _COMPILE_SEM:
+                p = subprocess.Popen(cmd, stdout=subprocess.PIPE, stderr=subprocess.STDOUT)
+                try:
+                    txt, _ = p.communicate(timeout=timeout)
+                except subprocess.TimeoutExpired:
+                    p.kill()
+                    return o, None, b'timeout'
+            return o, p.returncode, txt
+        if procs:
+            with cf.ThreadPoolExecutor(len(procs)) as ex:
+                results = list(ex.map(compile_one, procs))
+        else:
+            results = []
+        for o, rc, txt in results:
+            if rc is None:
                 raise ToolError(f'compile timeout: {name}')
             tmp = o + f'.{os.getpid()}.tmp'
-            if p.returncode != 0:
+            if rc != 0:
                 errs.append(txt.decode(errors='replace'))
                 if os.path.exists(tmp):
                     os.remove(tmp)
